@@ -355,6 +355,7 @@ func runReaders(c *simrun.Ctx) *simrun.Violation {
 	emptyNotNil := t.Chance("empty-notnil", 1, 3)
 	emptyCap := []int{0, 1, 4}[t.Draw("empty-cap", 3)]
 	truncate := t.Chance("truncate-lists", 1, 3)
+	emptyUnknown := t.Chance("empty-unknown", 1, 4)
 	// choices of the truncation history are drawn once and replayed for every
 	// copy, so that shared message, private copy and equal peer are built the
 	// same way (same nil-versus-empty and capacity choices) and every read
@@ -366,7 +367,7 @@ func runReaders(c *simrun.Ctx) *simrun.Violation {
 			ht = simhook.NewReplayTape(histDraws)
 		}
 		start := len(t.Rec)
-		h := &simval.History{T: ht}
+		h := &simval.History{T: ht, EmptyUnknown: emptyUnknown}
 		var m proto.Message
 		var err error
 		if useStruct {
@@ -397,6 +398,9 @@ func runReaders(c *simrun.Ctx) *simrun.Violation {
 	if shared == nil || private == nil || equalPeer == nil || unequalPeer == nil {
 		st.Add("runs_discarded_build_mismatch", 1)
 		return nil
+	}
+	if emptyUnknown {
+		st.Add("fault_empty_non_nil_unknown_fields", 1)
 	}
 	if useStruct && emptyNotNil && emptyCap > 0 || !useStruct && truncate {
 		st.Add("fault_empty_lists_with_spare_capacity", 1)
